@@ -92,6 +92,14 @@ def run(res, proof):
                         cu.fresh_results(res, 'pair_table_to_dot_bracket', lambda: cux.pair_table_to_dot_bracket(cux.make_pair_table(s)), d)
                         cu.fresh_results(res, 'make_strand_table', lambda: cux.make_strand_table(list(s)), d)
                         cu.fresh_results(res, 'strand_table_to_sequence', lambda: cux.strand_table_to_sequence(cux.make_strand_table(list(s))), d)
+                if len(s) <= 8 and b == '+':
+                    d = {'op': list(op)}
+                    cu.same_for_forms(res, 'make_pair_table', [('str', lambda: cux.make_pair_table(s)), ('list', lambda: cux.make_pair_table(list(s))),
+                                                               ('tuple', lambda: cux.make_pair_table(tuple(s)))], d)
+                    cu.same_for_forms(res, 'pair_table_to_dot_bracket', [('lists', lambda: cux.pair_table_to_dot_bracket(cux.make_pair_table(s))),
+                                                                         ('tuples', lambda: cux.pair_table_to_dot_bracket(cu.tup(cux.make_pair_table(s))))], d)
+                    cu.same_for_forms(res, 'make_strand_table', [('str', lambda: cux.make_strand_table(s.replace('(', 'a').replace(')', 'b').replace('.', 'c'))),
+                                                                 ('list', lambda: cux.make_strand_table(list(s.replace('(', 'a').replace(')', 'b').replace('.', 'c'))))], d)
                 # round trip on the real code (non-empty strands)
                 o2 = ('ptdb', cu.show_pt(exp), b)
                 r2 = cu.impl_op(cux, o2)
